@@ -197,7 +197,7 @@ pub fn run(ctx: &mut Ctx) {
     let cfg = GenCfg { max_blob: 120 };
 
     // (a) small messages: every buffer length 0..needed+8, three prefills
-    let n = ctx.n(1_500, 60_000);
+    let n = ctx.n(1_500, 200_000);
     ctx.cases("every-length", n, |ctx, case, rng| {
         let m = gen::message(rng, 6, &cfg);
         let reference = wire::build(&m, &mut Zero);
@@ -228,7 +228,7 @@ pub fn run(ctx: &mut Ctx) {
 
     // (b) larger messages: 64 sampled lengths
     let big = GenCfg { max_blob: 3000 };
-    let n = ctx.n(300, 10_000);
+    let n = ctx.n(300, 40_000);
     ctx.cases("sampled-length", n, |ctx, _case, rng| {
         let m = gen::message(rng, 12, &big);
         let reference = wire::build(&m, &mut Zero);
@@ -248,7 +248,7 @@ pub fn run(ctx: &mut Ctx) {
 
     // (c) the 16-bit boundary: totals 65,500..=65,532 step 4 must encode (and decode back)
     let totals: Vec<usize> = (65_500..=65_532).step_by(4).collect();
-    let reps = ctx.n(4, 60);
+    let reps = ctx.n(4, 200);
     ctx.cases("near-limit", totals.len() as u64 * reps, |ctx, case, rng| {
         let total = totals[(case % totals.len() as u64) as usize];
         let m = assemble(rng, total, case % 2 == 1);
@@ -285,7 +285,7 @@ pub fn run(ctx: &mut Ctx) {
 
     // (d) just above and far above the limit: must be rejected, never wrapped
     let over: Vec<usize> = (65_536..=65_560).step_by(4).chain([65_564, 66_000, 70_000, 80_008, 131_072, 131_076, 196_608, 200_000]).collect();
-    let reps = ctx.n(3, 40);
+    let reps = ctx.n(3, 120);
     ctx.cases("over-limit", over.len() as u64 * reps, |ctx, case, rng| {
         let total = over[(case % over.len() as u64) as usize];
         let m = assemble(rng, total, case % 2 == 1);
